@@ -39,6 +39,11 @@ theorem lhs_latin {N : Nat} {bounds : List (Rat × Rat)} {u : List (List Rat)} {
 example : buildLhs 2 [(0, 1), (0, 2)] [[1/2, 1/2], [1/4, 1/4]] [[0, 1], [1, 0]]
     = some [[1/4, 5/4], [5/8, 1/2]] := by decide +kernel
 
+/-- non-vacuity: all hypotheses of `lhs_latin` hold for this instance (2 samples, 2 parameters) -/
+example : ∀ s : Nat, s < 2 → ∃! i : Nat, ∃ x, entry [[1/4, 5/4], [5/8, 1/2]] i 1 = some x ∧ InStratum 2 0 2 s x :=
+  (lhs_latin (N := 2) (bounds := [(0, 1), (0, 2)]) (u := [[1/2, 1/2], [1/4, 1/4]]) (perms := [[0, 1], [1, 0]])
+    (by decide) (by decide +kernel) (by decide +kernel) (by decide) (by decide +kernel)).2.2 1 (0, 2) rfl
+
 /-- The sample of row `i` lies in the stratum the `j`-th permutation assigns to `i` (the draws only move it
 inside that stratum). -/
 theorem lhs_stratum_is_perm {N : Nat} {bounds : List (Rat × Rat)} {u : List (List Rat)} {perms : List (List Nat)}
@@ -63,6 +68,12 @@ theorem lhs_complete {N : Nat} {bounds : List (Rat × Rat)} {X : List (List Rat)
       (∀ row ∈ u, ∀ x ∈ row, 0 ≤ x ∧ x < 1) ∧ (∀ p ∈ perms, p.Perm (List.range N)) ∧
       buildLhs N bounds u perms = some X :=
   ⟨uOf N bounds X, permsOf N bounds X, lhs_complete_aux hN hb ⟨hlen, hdim, hlatin⟩⟩
+
+example : ∃ (u : List (List Rat)) (perms : List (List Nat)),
+    (∀ row ∈ u, ∀ x ∈ row, 0 ≤ x ∧ x < 1) ∧ (∀ p ∈ perms, p.Perm (List.range 2)) ∧
+    buildLhs 2 [(0, 1), (0, 2)] u perms = some [[1/4, 5/4], [5/8, 1/2]] :=
+  lhs_complete (by decide) (by decide +kernel) rfl (by decide)
+    ((isLatinDesign_iff' (by decide) (by decide +kernel)).mp (by decide +kernel)).2.2
 
 /-- The affine map of `construct_df_from_random_matrix` preserves strata: `lb + w·|ub − lb|` lies in stratum `s`
 of `[lb, ub]` iff `w` lies in stratum `s` of the unit interval. -/
